@@ -5,7 +5,13 @@ func init() {
 	generators["C02"] = func(p *pg) (Config, Plan) { return p.genCrash("C02") }
 	generators["C03"] = func(p *pg) (Config, Plan) { return p.genCrash("C03") }
 	generators["C04"] = func(p *pg) (Config, Plan) { return p.genCrash("C04") }
-	generators["C13"] = func(p *pg) (Config, Plan) { return p.genCrash("C13") }
+	generators["C13"] = func(p *pg) (Config, Plan) {
+		if p.r.Intn(3) == 0 {
+			// readers pinning old state across truncations (no crashes)
+			return p.genC06("C13")
+		}
+		return p.genCrash("C13")
+	}
 }
 
 var crashTargets = []string{"", "", "", "WriteAt", "Sync", "CommitState", "Create", "Delete", "SetStable"}
